@@ -243,6 +243,38 @@ type funcUse struct {
 }
 
 func (w *World) usesOfFunc(callee *ssa.Function) []funcUse {
+	out := w.usesOfFuncSyntactic(callee)
+	if !w.thorough {
+		return out
+	}
+	// thorough tier: add callers that reach callee only through dynamic dispatch or function values (VTA call graph)
+	seen := map[*ssa.Function]bool{}
+	for _, u := range out {
+		seen[u.in] = true
+	}
+	if n := w.callGraph().Nodes[callee]; n != nil {
+		for _, e := range n.In {
+			caller := e.Caller.Func
+			if caller == nil || seen[caller] || !w.inModule(caller) || caller.Synthetic != "" && !strings.Contains(caller.Synthetic, "range-over-func") {
+				continue
+			}
+			seen[caller] = true
+			w.vtaExtra++
+			var at ssa.Instruction
+			if e.Site != nil {
+				at = e.Site
+			} else if len(caller.Blocks) > 0 && len(caller.Blocks[0].Instrs) > 0 {
+				at = caller.Blocks[0].Instrs[0]
+			}
+			if at != nil {
+				out = append(out, funcUse{caller, at, "vta"})
+			}
+		}
+	}
+	return out
+}
+
+func (w *World) usesOfFuncSyntactic(callee *ssa.Function) []funcUse {
 	var out []funcUse
 	for _, f := range w.modFuncs {
 		for _, b := range f.Blocks {
